@@ -35,3 +35,29 @@ def C18(sc, tier, replay, t0):
                      "no weak-memory effects; data accesses between two shim operations are not interleaved",
                      "3 threads x 2 operations x 2 keys bound"],
         trusted_base=MC_ASSUME + ["verifsync shim", "linearizability monitor (DESIGN.md Appendix C)"])
+
+
+def build_c19(sc, gen):
+    mod = D.make_module(sc, gen, "c19")
+    repl = {}
+    od = D.overlay_add(sc, gen, repl, "d2/verif_export.go", os.path.join(D.VERIF, "overlay", "d2", "verif_export.go"), name="ov19")
+    ov = D.write_overlay(od, repl)
+    return D.go_build(mod, os.path.join(mod, "h"), overlay=ov)
+
+
+def C19(sc, tier, replay, t0):
+    reports = []
+    gens = ["v2", "root"] if not replay else [replay_gen(replay)]
+    for gen in gens:
+        binary = build_c19(sc, gen)
+        if replay:
+            return replay_run(binary, gen, replay)
+        reports += D.run_shards(binary, gen, tier, max(1, D.NCPU // len(gens)), os.path.join(sc.dir, "out"),
+                                deadline=(3000 if tier == "thorough" else 600))
+    merged = D.merge_reports(reports)
+    return D.finish("C19", tier, "model_checking", merged, t0,
+        rule="explicit enumeration of every ZooKeeper event history up to the stated length over 3 znodes, each replayed on a fresh snapshot chain through the real handleUriUpdate (function level) and through the real waitForUriUpdates/waitForServiceUpdates loops + ResolveHostnameAndContextForQuery (client level), compared with a reference fold after every event, with every earlier snapshot re-compared to the copy taken when it was handed out; selection: every announcement set x priority list x scripted RNG answer on a grid; states = distinct fold contents / announcement sets, transitions = handler or chooseHost calls; a class is (family, history length | selection outcome kind)",
+        assumptions=["D2 is driven below ZooKeeper: events are injected at handleUriUpdate / the wait loops; treecache.go and the zk connection are not exercised",
+                     "Go map iteration order is not controllable: the per-draw selection oracle accepts the choice of any iteration order; the r=0 draw is repeated 24x on fresh maps",
+                     "history length and announcement-set size bounds as in sub_checks.bounds"],
+        trusted_base=MC_ASSUME + ["in-package export file overlay/d2/verif_export.go (forwards only)", "scripted rand.Source"])
